@@ -171,9 +171,18 @@ func TestC01Exact(t *testing.T) {
 		case i%7 == 3: // transparent decompression by file name suffix
 			path += []string{".gz", ".gzip"}[i%2]
 			var zb bytes.Buffer
-			zw := gzip.NewWriter(&zb)
-			zw.Write(content)
-			zw.Close()
+			// one gzip member, or several in a row (cat a.gz b.gz, gzip -c >>, pigz): gunzip yields their concatenation
+			cuts := []int{len(content)}
+			if i%14 == 3 && len(content) > 0 {
+				cuts = []int{0, len(content) / 2, len(content)} // (an empty first member included)
+			}
+			prev := 0
+			for _, cut := range cuts {
+				zw := gzip.NewWriter(&zb)
+				zw.Write(content[prev:cut])
+				zw.Close()
+				prev = cut
+			}
 			os.WriteFile(path, zb.Bytes(), 0644)
 		case i%11 == 5:
 			path += ".zst"
